@@ -323,7 +323,7 @@ func (nl *NodeList) Intersect(nl2 *NodeList) *NodeList {
 		}
 		// Clone the node
 		newnode := node.Copy()
-		newnode.Update(ni2[id])
+		newnode.Update(ni2[id].Copy())
 		ret.Nodes = append(ret.Nodes, newnode)
 
 		_, ok := rootElements[id]
